@@ -18,6 +18,7 @@ import time
 from typing import Any, Dict, List
 
 from .. import core_check, gen, pipeline, report, tla
+from ..core_check import budget_map
 from .. import replay as rp
 from ..core_check import run_units
 from ..pipeline import state_key
@@ -178,7 +179,7 @@ def run(prop: str, tier: str, seed: int) -> int:
         import concurrent.futures as cf
 
         with cf.ProcessPoolExecutor(max_workers=NPROC) as ex:
-            results = list(ex.map(unit, units))
+            results = budget_map(ex, unit, units)
     else:
         results = [unit(u) for u in units]
     cov: Dict[str, Any] = {"states": 0, "transitions": 0, "edges_compared_on_three_engines": 0, "machines": 0,
